@@ -60,6 +60,150 @@ def optional_args(K):
     return out
 
 
+class SessTarget(object):
+    """the target of Session.tla: two one-byte blocks, a capacity, an identity, a reported device type, and
+    a completion it can be told to give the next command"""
+    SENSE = bytes([0x70, 0, 5, 0, 0, 0, 0, 10, 0, 0, 0, 0, 0x24, 0, 0, 0, 0, 0])
+
+    def __init__(self):
+        self.ptype, self.cap, self.ident, self.disk, self.fault, self.seen = 0, 1, 1, {0: 0, 1: 0}, 0, 0
+
+    def __call__(self, cdb, dataout, datain):
+        import struct
+        self.seen += 1
+        if self.fault:
+            st, self.fault = self.fault, 0
+            return (2, self.SENSE) if st == 2 else (st, None)
+        op = cdb[0]
+        if op == 0x12:
+            d = bytearray(96)
+            d[0], d[2], d[4] = self.ptype, 6, 91
+            d[8:16] = b"VERIFTG%d" % self.ident
+            datain[:len(d)] = d[:len(datain)]
+        elif op == 0x25:
+            datain[:8] = struct.pack(">II", self.cap, 1)[:len(datain)]
+        elif op == 0x9E and (cdb[1] & 0x1F) == 0x10:
+            d = struct.pack(">QI", self.cap, 1) + bytes(20)
+            datain[:len(d)] = d[:len(datain)]
+        elif op == 0x28:
+            datain[0:1] = bytes([self.disk[struct.unpack_from(">I", cdb, 2)[0]]])
+        elif op == 0x2A:
+            self.disk[struct.unpack_from(">I", cdb, 2)[0]] = dataout[0]
+        return 0, None
+
+
+def session(chk):
+    """spec -> code on Session.tla: every exported behaviour of one facade's lifetime is replayed step by step
+    on the real SCSI facade over the stand-in bindings; per step the number of commands the target saw, the
+    outcome and the values the caller reads are compared with the specification's"""
+    import os
+    from ..core import bindings
+    from .c06 import scramble
+    ev = chk.ev
+    beh = []
+    for cfg in ("MC_Session.cfg", "MC_Session_sgio.cfg"):
+        r = tlc.run("Session", cfg, workers=8, timeout=900, name="c13sess")
+        if not r.ok:
+            raise tlc.TLCFailure("Session.tla violated %s\n%s" % (r.violated, r.counterexample[:1500]))
+        ev.tlc("Session/" + cfg + " (exhaustive, 3 steps)", r)
+        b = [v for t, v in r.prints if t == "SESSION"]
+        beh += b if not chk.quick else random.Random(chk.seed).sample(b, min(len(b), 1500))
+    for cfg in ("Sim_Session_iscsi.cfg", "Sim_Session_sgio.cfg"):
+        rs = tlc.run("Session", cfg, workers=1, timeout=900, name="c13sim", simulate="num=%d" % (80 if chk.quick else 6000),
+                     extra=["-depth", "40", "-seed", str(chk.seed + 13)])
+        if rs.violated:
+            raise tlc.TLCFailure("Session.tla (simulation) violated %s" % rs.violated)
+        beh += [v for t, v in rs.prints if t == "SESSION"]
+    fs, fi = bindings.install(True, True)
+    d = bindings.shm_dir("c13s")
+    path = os.path.join(d, "sg0")
+    open(path, "wb").close()
+    SCSI = mod("pyscsi.pyscsi.scsi").SCSI
+    steps = 0
+    try:
+        for b in beh:
+            tgt = SessTarget()
+            fs.reset(tgt)
+            fi.reset(tgt)
+            if b["tr"] == "iscsi":
+                dev = mod("pyscsi.pyiscsi.iscsi_device").ISCSIDevice("iscsi://h/iqn.t/0", "iqn.i")
+            else:
+                dev = mod("pyscsi.pyscsi.scsi_device").SCSIDevice(path, readwrite=True)
+            facade = SCSI(dev, 1)
+            kept, kind = None, ""
+            for i, s_ in enumerate(b["steps"]):
+                a = s_["act"]
+                seen0 = tgt.seen
+                out, d1, d2 = "ok", 0, 0
+
+                def read_kept(c, k):
+                    if k == "cap":
+                        return int(c.result["returned_lba"]), 0
+                    v = bytes(c.result["t10_vendor_identification"])
+                    return (int(v[-1:]) if v[:7] == b"VERIFTG" else 99), int(c.result["peripheral_device_type"])
+                try:
+                    if a == "write":
+                        facade.write10(s_["x"], 1, bytearray([s_["y"]]))
+                    elif a == "read":
+                        d1 = facade.read10(s_["x"], 1).datain[0]
+                    elif a in ("cap", "keepcap"):
+                        c = facade.readcapacity10()
+                        d1, d2 = read_kept(c, "cap")
+                        if a == "keepcap":
+                            kept, kind = c, "cap"
+                    elif a in ("inq", "keepinq"):
+                        c = facade.inquiry()
+                        d1, d2 = read_kept(c, "inq")
+                        if a == "keepinq":
+                            kept, kind = c, "inq"
+                    elif a == "reissue":
+                        facade.execute(kept)
+                        kept.unmarshall()
+                        d1, d2 = read_kept(kept, kind)
+                    elif a == "edit":
+                        scramble(kept.result)
+                    elif a == "ata":
+                        facade.atapassthrough16(0, 0, 0, 0, 0, 0, 0, 0, 0, 0xEC)
+                    elif a == "reattach":
+                        facade(dev)
+                    elif a == "probe9E":
+                        d1 = int(facade.readcapacity16().result["returned_lba"])
+                    elif a == "probeA3":
+                        facade.reporttargetportgroups()
+                    elif a == "settype":
+                        tgt.ptype = s_["x"]
+                    elif a == "resize":
+                        tgt.cap = s_["x"]
+                    elif a == "rename":
+                        tgt.ident = s_["x"]
+                    elif a == "arm":
+                        tgt.fault = s_["x"]
+                except BaseException as ex:
+                    out = type(ex).__name__
+                sent = tgt.seen - seen0
+                if s_["out"] == "refused" and out != "ok" and sent == 0:
+                    out = "refused"
+                steps += 1
+                if (out, sent, d1, d2) != (s_["out"], s_["sent"], s_["d1"], s_["d2"]):
+                    clause = "ExactlyOnce" if sent != s_["sent"] else ("DecodesWhatDeviceReturned" if out == s_["out"] else "SessionOutcome")
+                    chk.violation({"clause": clause, "cls": "", "field": "", "method": "session:" + a, "set": b["tr"],
+                                   "detail": {"step": i, "expected": s_, "observed": {"out": out, "sent": sent, "d1": d1, "d2": d2},
+                                              "behaviour": b["steps"][:i + 1]},
+                                   "what": "Session.tla behaviour replayed"}, dedup=("Session", a, s_["out"], out, sent))
+                    break
+            try:
+                dev.close()
+            except Exception:
+                pass
+            ev.case(("session", str(b)[:400]))
+    finally:
+        for f in os.listdir(d):
+            os.unlink(os.path.join(d, f))
+        os.rmdir(d)
+    ev.cov["session_behaviours_replayed"] = len(beh)
+    ev.cov["session_steps"] = steps
+
+
 def run(chk, replay=None):
     ev = chk.ev
     ev.assumptions += [
@@ -285,6 +429,7 @@ def run(chk, replay=None):
                     u["exc"] = type(ex).__name__
                 unms.append(u)
             ev.case(("same-bytes", setname, bytes(b)))
+    session(chk)
     # ---- TLC judges ---------------------------------------------------------------------------------------
     vs, st = tlc.judge_traces("Trace_Facade", "Trace_Facade.cfg", calls, name="c13trf")
     ev.judged("Trace_Facade", st, len(calls))
